@@ -439,6 +439,11 @@ OBLIGATIONS += [
        "5 calls over 2 function types + 1 syscall_once; input any u8 < 50",
        "state persists per function type, is independent between types, commands applied on return, validation on first use only, "
        "syscall_once uses a fresh system"),
+    k2("syscall.named_nested", _k2h("ecs::named_syscall", "named_syscall_nested_other_key"), ["C17", "C13"],
+       ["named_syscall", "IdMappedSystems::take / insert", "run_initialized_system"], ["src/ecs/named_syscall.rs", "src/ecs/callbacks.rs"],
+       "two names whose systems share input/output types; the first name's (exclusive) system calls the second name while it runs; input < 50",
+       "a named system called while another named system of the same input/output types is running continues its OWN persisted "
+       "state, and what it did persists after the outer call returns (keys independent and persistent across nesting)"),
     k2("syscall.named", _k2h("ecs::named_syscall", "named_syscall_state_per_key"), ["C17"],
        ["named_syscall", "SysName::new", "IdMappedSystems"], ["src/ecs/named_syscall.rs"], "3 calls with one name + 1 with another; input any u8 < 50",
        "state persists over three calls with the same key (the system is put back every time); another name is independent"),
@@ -505,6 +510,12 @@ OBLIGATIONS.append(k2("entry.broadcast", _k2h("react::react_commands", "entry_br
                       "payload any u8; the deferred syscall closure is applied at once (CmdMode::Immediate)",
                       "the public trigger call, through its deferred syscall, ends in exactly one dispatch: one reaction per listener of that "
                       "type in registration order sharing one data entity with the event's own payload; nothing for another type"))
+OBLIGATIONS.append(k2("entry.resource_mutation", _k2h("react::react_commands", "entry_resource_mutation_reaches_exactly_its_reactors"), ["C14", "C01"],
+                      ["ReactCommands::trigger_resource_mutation", "syscall_with_validation", "validate_rc", "ReactCache::schedule_resource_mutation_reaction"],
+                      ["src/react/react_commands.rs", "src/ecs/syscall.rs", "src/react/react_cache.rs"],
+                      "one reactor of resource type R; the trigger is symbolically for R or for an unwatched type; deferred syscall applied at once",
+                      "the public trigger call ends in exactly one dispatch: one reaction per reactor of that resource type, none for another type",
+                      ("thorough",)))
 OBLIGATIONS += [
     k2("rc.entity_event_dead_typewide", f"{RC}rc_entity_event_dead_1_1_0", ["C18", "C01", "C05"],
        ["ReactCache::schedule_entity_event_reaction"], RC_SRC,
@@ -787,7 +798,7 @@ _QUICK_ONLY_FOR = {
     "cmd.apply_reaction_entity": ["C03"], "cmd.apply_reaction_despawn": ["C08"], "cmd.apply_reaction_entity_event": ["C16"],
     "cmd.apply_reaction_broadcast": ["C05", "C18"],
     "cmd.pair_broadcast_event": ["C05"], "cmd.pair_system_event": ["C04"], "cmd.pair_despawn_reaction": ["C07"],
-    "rc.register_broadcast_2_1": ["C01"], "rc.register_mutation_1_1_1": ["C15"], "rc.register_despawn_by_entity": ["C08"], "entry.broadcast": ["C14"],
+    "rc.register_broadcast_2_1": ["C01"], "rc.register_mutation_1_1_1": ["C15"], "rc.register_despawn_by_entity": ["C08"], "entry.broadcast": ["C14"], "syscall.named_nested": ["C17"],
     "register.two_triggers": ["C15"], "register.empty_bundle": ["C15"], "token.every_member": ["C06", "C15", "C16"],
 }
 
